@@ -61,4 +61,31 @@ def ucanon (t : T) : String :=
   let h := Hier.sup (T.toH t)
   renderSorted (canonU (lowIdx (Hier.mask h)) h)
 
+/-! ### a structural normal form: children ordered by their leafset mask (distinct among the children of a well-formed node) -/
+
+def insertByMask (x : Hier.T) : List Hier.T → List Hier.T
+  | [] => [x]
+  | y :: ys => if Hier.mask x ≤ Hier.mask y then x :: y :: ys else y :: insertByMask x ys
+
+def sortM (l : List Hier.T) : List Hier.T := l.foldr insertByMask []
+
+mutual
+/-- the same tree with the children of every node in increasing order of leafset mask -/
+def csort : Hier.T → Hier.T
+  | .leaf i => .leaf i
+  | .node cs => .node (sortM (csortL cs))
+def csortL : List Hier.T → List Hier.T
+  | [] => []
+  | c :: cs => csort c :: csortL cs
+end
+
+/-- the unrooted topology of `t` as ONE tree: re-seeded at the lowest leaf, children in mask order.  Two well-formed trees
+    have the same `ucanonT` iff their `canonU`s are `Iso` (`Props/C01.lean: ucanonT_eq_iff_iso`) -/
+def ucanonT (t : T) : Hier.T :=
+  let h := Hier.sup (T.toH t)
+  csort (canonU (lowIdx (Hier.mask h)) h)
+
+/-- what the driver prints for op `ucanon2`: the plain structural rendering of `ucanonT` -/
+def ucanon2 (t : T) : String := Hier.render (ucanonT t)
+
 end DendroModel.C01
